@@ -1,5 +1,7 @@
 /- T1 facts about retry.go (C18): the order of the checks in one iteration of the retry loop, as `BB.Retry` models it. -/
 import BB.Gen.Skel
+import BB.Gen.Consts
+import BB.Model.Retry
 
 namespace BB.Conform.Retry
 open BB.Skel BB.Gen.Skel
@@ -25,5 +27,9 @@ theorem delay_computed_before_the_wait :
     dominates g_ExponentialRetry_0 (is K.callvar S.calcExponentialRetry) (is K.callvar S.waitDuration) = true ∧
     dominates g_ExponentialRetry_0 (is K.cond S.c_c_lt_maxShiftUint32) (is K.callvar S.value) = true ∧
     dominates g_ExponentialRetry (is K.cond S.c_rate_le_0) (is K.lit S.ExponentialRetry_0) = true := by decide
+
+/-- the constants of the model are the source's: the shift cap (31) and the default rate substituted for rate <= 0 (300 ms) -/
+theorem constants_are_the_sources :
+    BB.Gen.Consts.maxShiftUint32 = (BB.Retry.maxShift : Int) ∧ BB.Gen.Consts.defaultExponentialRetryRate = 300000000 := by decide
 
 end BB.Conform.Retry
